@@ -84,6 +84,9 @@ impl EdgeLabel for char {
 //@}
 //@fn add
 //@rules R9 R11 R14 R5
+//@pre{
+#[verifier::loop_isolation(false)]
+//@}
 //@ret r
 //@head{
     requires add_inv(*old(self)), reach_ok(*old(self)), vstd::std_specs::btree::key_obeys_cmp_spec::<L>(),
@@ -217,6 +220,9 @@ impl EdgeLabel for char {
 //@}
 //@fn skip_shadowed
 //@rules R9 R11 R5 R21
+//@pre{
+#[verifier::loop_isolation(false)]
+//@}
 //@ret r
 //@head{
     requires add_inv(*old(self)), reach_ok(*old(self)), vstd::std_specs::btree::key_obeys_cmp_spec::<L>(), old(self).match_kind is LeftmostFirst,
